@@ -67,6 +67,19 @@ def _perturb(mesh, seed, amp, only_interior=True):
 
 def build_mesh(m):
     gen = m["gen"]
+    if m.get("rot90") and gen in ("Cube", "Rectangle"):
+        # the body as a caller may have built it: meshed along the other in-plane axes and turned by 90
+        # degrees about z (mesh.rotate) - it touches the same coordinate planes, its extents are the
+        # documented ones, it lies at negative x, and its coordinates in those planes are zero only up
+        # to round-off (cos 90 deg = 6e-17)
+        m2 = dict(m)
+        m2.pop("rot90")
+        for key in ("a", "b", "n"):
+            v = list(m2[key])
+            v[0], v[1] = v[1], v[0]
+            m2[key] = v
+        mesh = build_mesh(m2).rotate(90, axis=2)
+        return fem.Mesh(mesh.points, mesh.cells, mesh.cell_type)
     n = m.get("n", 2)
     if gen == "Cube":
         mesh = fem.Cube(a=tuple(m.get("a", (0, 0, 0))), b=tuple(m.get("b", (1, 1, 1))), n=tuple(n))
